@@ -92,10 +92,14 @@ func TestVerif_C14_close_e2e(t *testing.T) {
 				var unc bool
 				var closeTook time.Duration
 				infra := ""
+				// the request context is cancelled only AFTER the verdict (a Close does not cancel it):
+				// what a defective wrapper leaves behind is released then and cannot pile up - leaked
+				// HTTP/3 streams would use up the connection's flow-control window and wedge later cases
+				ctx, cancel := context.WithTimeout(context.Background(), 60*time.Second)
 				ptext, panicked := verifh.Safely(func() {
 					var hr *http.Response
 					if via == "transport" {
-						hreq, _ := http.NewRequest("GET", e.base[proto]+"/", nil)
+						hreq, _ := http.NewRequestWithContext(ctx, "GET", e.base[proto]+"/", nil)
 						hreq.Header.Set("X-C14-Case", c.id)
 						resp, err := cl.GetTransport().RoundTrip(hreq)
 						if err != nil {
@@ -104,7 +108,7 @@ func TestVerif_C14_close_e2e(t *testing.T) {
 						}
 						hr = resp
 					} else {
-						resp, err := cl.R().SetHeader("X-C14-Case", c.id).Get(e.base[proto] + "/")
+						resp, err := cl.R().SetContext(ctx).SetHeader("X-C14-Case", c.id).Get(e.base[proto] + "/")
 						if err != nil {
 							infra = err.Error()
 							return
@@ -127,10 +131,12 @@ func TestVerif_C14_close_e2e(t *testing.T) {
 				})
 				human := fmt.Sprintf("%s %s via %s: read %d bytes of %d, Close x%d", proto, v.name, via, readN, len(payload), closes)
 				if panicked {
+					cancel()
 					s.Crash(c.id, human, ptext, "")
 					continue
 				}
 				if infra != "" {
+					cancel()
 					t.Fatalf("infra: %s (%s)", infra, human)
 				}
 				var outcome string
@@ -139,6 +145,7 @@ func TestVerif_C14_close_e2e(t *testing.T) {
 				case <-time.After(c14ReleaseWait + 5*time.Second):
 					outcome = "origin-silent"
 				}
+				cancel()
 				ok := outcome == "released" && closeTook < c14ReleaseWait-500*time.Millisecond
 				class := ""
 				switch {
